@@ -65,10 +65,19 @@ def main():
     # then builds and executes what was generated: such runs (on /repo or, with CELMA_REPO, on another tree) are
     # serialised, so that no run ever builds or executes the tables of another run's tree
     genlock = None
-    if any(p.PROPERTIES[prop].get("translators") for p in plugins):
+    groups = set()
+    for p in plugins:
+        for tr in p.PROPERTIES[prop].get("translators", []):
+            mod = tr.__module__.split(".")[-1]
+            # the handlermt and concurrency translators share Generated/SharedState.lean
+            groups.add("mt" if mod in ("comp_handlermt", "comp_concurrency", "shared_state", "concurrency") else mod)
+    if groups:
         import fcntl
-        genlock = open(os.path.join(LEAN, ".gen.lock"), "w")
-        fcntl.flock(genlock, fcntl.LOCK_EX)
+        genlock = []
+        for g in sorted(groups):           # fixed order: no deadlock between runs that need several groups
+            f = open(os.path.join(LEAN, ".gen.%s.lock" % g), "w")
+            fcntl.flock(f, fcntl.LOCK_EX)
+            genlock.append(f)
     try:
         for plugin in plugins:
             work = tempfile.mkdtemp(prefix="celma_verif_%s_" % prop)
@@ -81,8 +90,8 @@ def main():
                 return r
             results.append(r)
     finally:
-        if genlock is not None:
-            genlock.close()
+        for f in (genlock or []):
+            f.close()
     ev = merge_evidence([r["ev"] for r in results])
     ev["wall_s"] = round(time.time() - t0, 2)
     # evidence/<id>.json describes runs against /repo itself; a run against another tree (CELMA_REPO, used to try
